@@ -59,12 +59,16 @@ func (f *Block) Call(s *slip.Scope, args slip.List, depth int) (result slip.Obje
 	}
 	d2 := depth + 1
 	for i := 1; i < len(args); i++ {
-		result = slip.EvalArg(ns, args, i, d2)
-		if rr, _ := result.(*slip.ReturnResult); rr != nil {
-			if ns.Name == rr.Tag {
-				return rr.Result
+		switch tr := slip.EvalArg(ns, args, i, d2).(type) {
+		case *slip.ReturnResult:
+			if ns.Name == tr.Tag {
+				return tr.Result
 			}
-			return
+			return tr
+		case *GoTo:
+			return tr
+		default:
+			result = tr
 		}
 	}
 	return
